@@ -43,6 +43,20 @@ def item(name, st, detail="", backend="z3", seconds=0.0):
     return {"name": name, "status": st, "backend": backend, "seconds": seconds, "detail": detail}
 
 
+def _state_copy_checks(text):
+    """the state vector has NEQUATIONS entries (species and, with thermal processes, the temperature): every loop of Solve and
+    HandleError that saves, restores or logs it runs over all of them (this is also what justifies executing HandleError on the
+    generic element of the arrays)"""
+    out = []
+    for fname in ("Solve", "HandleError"):
+        body = cmini.strip(body_of(text, rf"int\s+Naunet::{fname}"))
+        loops = [(m.group(2), m.group(3)) for m in re.finditer(r"for\s*\(\s*int\s+(\w+)\s*=\s*0;\s*\1\s*<\s*(\w+);\s*\1\+\+\s*\)\s*\{([^{}]*)\}", body)
+                 if re.search(r"\bab(_init_|_tmp_)?\[", m.group(3))]
+        bad = [(b_, blk.strip()[:60]) for b_, blk in loops if b_ != "NEQUATIONS"]
+        out.append((f"{fname}/state-copy-loops-cover-all-equations", bool(loops) and not bad, f"{bad}" if bad else f"{len(loops)} loops"))
+    return out
+
+
 def handle_error_items(tier):
     items = []
     for method in ("dense", "sparse"):
@@ -51,6 +65,8 @@ def handle_error_items(tier):
         try:
             files = rendered("cvode", method)
             text = files["src/naunet.cpp"]
+            for nm_, ok_, det_ in _state_copy_checks(text):
+                items.append(item(f"{pre}/{nm_}", "proved" if ok_ else "refuted", det_, "text-scan"))
             stmts = cmini.parse_body(body_of(text, r"int\s+Naunet::HandleError"))
         except (CMiniError, KeyError) as e:
             items.append(item(f"{pre}/HandleError-in-fragment", "unknown", f"{e}", "cmini"))
@@ -260,13 +276,13 @@ def handle_error_items(tier):
             ("Solve/returns-HandleError-result", re.search(r"CVodeFree\(&cv_mem_\);\s*return flag;", s_) is not None),
             ("Solve/failure-logs-initial-state", re.search(r"if \(flag == NAUNET_FAIL\) \{.*?ab_init_\[i\]\);", s_, flags=re.S) is not None),
         ]
-        # the state vector has NEQUATIONS entries (species and, with thermal processes, the temperature): every loop of Solve and
-        # HandleError that saves, restores or logs it runs over all of them
-        for fname, body in (("Solve", s_), ("HandleError", cmini.strip(body_of(text, r"int\s+Naunet::HandleError")))):
-            loops = [(m.group(2), m.group(3)) for m in re.finditer(r"for\s*\(\s*int\s+(\w+)\s*=\s*0;\s*\1\s*<\s*(\w+);\s*\1\+\+\s*\)\s*\{([^{}]*)\}", body)
-                     if re.search(r"\bab(_init_|_tmp_)?\[", m.group(3))]
-            bad = [(b_, blk.strip()[:60]) for b_, blk in loops if b_ != "NEQUATIONS"]
-            checks.append((f"{fname}/state-copy-loops-cover-all-equations", bool(loops) and not bad, f"{bad}" if bad else f"{len(loops)} loops"))
+        # the Python binding reports the same failure: PyWrapSolve raises exactly when Solve returned NAUNET_FAIL
+        try:
+            pw = cmini.strip(body_of(text, r"Naunet::PyWrapSolve"))
+            okpw = re.search(r"int\s+flag\s*=\s*Solve\(ab,\s*dt,\s*data\);\s*if\s*\(\s*flag\s*==\s*NAUNET_FAIL\s*\)\s*\{\s*throw\b", pw) is not None
+            checks.append(("PyWrapSolve/raises-when-Solve-fails", okpw, pw[:160].replace("\n", " ")))
+        except Exception as e:
+            checks.append(("PyWrapSolve/raises-when-Solve-fails", False, f"{e}"))
         for chk in checks:
             nm, ok = chk[0], chk[1]
             items.append(item(f"{pre}/{nm}", "proved" if ok else "refuted", chk[2] if len(chk) > 2 else "", "text-scan"))
